@@ -583,6 +583,10 @@ func (c *ctx) perturb() (string, string) {
 			}
 			name = "same-direction-other-kind"
 		}
+		if foreignCode(v.kind, *e.code) {
+			*e.code = old // outside the stated domain
+			return "", ""
+		}
 		return g, fmt.Sprintf("%s/%s/%s", v.kind, name, c.comp(bi, lvl))
 	case "service-class":
 		nv := gen.Pick(r, []int{200, 220, 225, 280, 0, 210})
